@@ -153,7 +153,8 @@ def run(ctx):
     r = ctx.rng("c08")
     n = ctx.n(1600, 16000)
     for j in range(n):
-        nodes = gen.gen_document(r, gen.GenOpts(gated=ctx.gated, p_key=r.choice([0.2, 0.4]), dup=0.0))
+        nodes = gen.gen_document(r, gen.GenOpts(gated=ctx.gated, p_key=r.choice([0.2, 0.4]), dup=0.0,
+                                                symbol_files="symbolset-root-bookkeeping" not in ctx.gated))
         for s in [render.CANONICAL] + render.surfaces(r, 2 if ctx.quick else 3):
             s.gap_comments = r.choice([0.0, 0.2, 0.4])
             rr = render.render(nodes, s, r)
@@ -186,7 +187,8 @@ def run(ctx):
     nf = ctx.n(3000, 40000)
     for j in range(nf):
         s = render.surfaces(r, 1)[0] if j % 2 else render.CANONICAL
-        run_ = valcheck.make(r, eng, ctx.gated, nfaults=r.choice([1, 1, 2]), surface=s)
+        run_ = valcheck.make(r, eng, ctx.gated, nfaults=r.choice([1, 1, 2]), surface=s,
+                             symbol_files="symbolset-root-bookkeeping" not in ctx.gated)
         if not run_.faults or run_.error is not None:
             res.count("fault_case_unusable")
             continue
